@@ -5,6 +5,8 @@ import specs.nixlex  # noqa: F401
 import specs.npath  # noqa: F401
 
 M = "nix_manipulator/cli/manipulations.py"
+# every edit property rests on the same edit path (resolve the target, walk / write the attrpath family, write the layers back)
+EDIT_PROPS = ["C04", "C05", "C08", "C09", "C19"]
 
 
 def _seg(name, quoted):
@@ -35,7 +37,7 @@ contract(
     exsures={"ValueError": ["len(npath) >= 1 and leading_ats(npath, len(npath))"]},
     loops={0: Loop(invariant=["depth == _i", "at_run(npath[:_i]) == 1", "implies(_i >= 1, npath[0] == '@')"])},
     canaries=["implies(result is not None, leading_ats(npath, result[0] + 1))"],
-    props=["C09", "C08"],
+    props=EDIT_PROPS,
 )
 
 _NP_INV = [
@@ -186,7 +188,7 @@ contract(
     ensures=[],
     exsures={"ValueError": [], "KeyError": []},
     domain=False,
-    props=["C09", "C07", "C08"],
+    props=EDIT_PROPS + ["C07"],
 )
 
 contract(
@@ -207,7 +209,7 @@ contract(
     exsures={"ValueError": [], "KeyError": []},
     loops={0: Loop(invariant=["True"], modifies=["source.trailing[]"])},
     domain=False,
-    props=["C09", "C08"],
+    props=EDIT_PROPS,
 )
 
 contract(
@@ -249,7 +251,7 @@ contract(
         "layers >= alloc_at_entry()",
     ], modifies=["layers[]"])},
     domain=False,
-    props=["C09"],
+    props=EDIT_PROPS,
 )
 
 # ---------------------------------------------------------------------------------------------
@@ -293,7 +295,7 @@ contract(
         "stack[len(stack) - 1][1] is first_binding(stack[len(stack) - 1][0].values, segments[len(stack) - 1], True)",
     ] + _STACK_SHAPE, modifies=["stack[]"])},
     domain=False,
-    props=["C05", "C04"],
+    props=EDIT_PROPS + ["C14"],
 )
 
 contract(
@@ -324,7 +326,7 @@ contract(
         1: Loop(invariant=["True"], modifies=["<entry-lists>[]"]),
     },
     domain=False,
-    props=["C05", "C04", "C08"],
+    props=EDIT_PROPS + ["C14"],
 )
 
 contract(
@@ -354,7 +356,7 @@ contract(
         'heap_unchanged("lists-grow")',
     ], modifies=["<entry-lists>[]"])},
     domain=False,
-    props=["C05", "C04", "C08"],
+    props=EDIT_PROPS + ["C14"],
 )
 
 # writing the edited layers back: the expression's own scope / state describe the OUTERMOST layer (layers[0]); with no
@@ -375,5 +377,5 @@ contract(
         "all(layers[j].scope is old(layers[j].scope) and layers[j].after_let_comment is old(layers[j].after_let_comment) for j in range(len(layers)))",
     ],
     domain=False,
-    props=["C09", "C19"],
+    props=EDIT_PROPS,
 )
